@@ -14,6 +14,7 @@ PID = "C19"
 RULE = (
     "complete product grid family/dimension/periodicity x modes 0..4 x width {None, 0.0, 1.3} x refine x threshold rule {0.5, auto, mean, otsu} "
     "x image catalogue {empty, one droplet, two droplets, droplet + single-cell speck}; non-trivial = at least one droplet located"
+    "; prelude histories (amplitude-less / many-mode / other-dimension droplets constructed first, fresh fork); thorough: further grids of every family, modes to 6, worker processes"
 )
 ASSUMPTIONS = [
     "images are rendered diffuse droplets (width 1 cell) on 9-16 cell grids; class/layout clauses do not depend on the image beyond the droplet count",
